@@ -15,7 +15,7 @@ class Contract:
                  inline=False, trusted=False, pure=False, auto=True, result_fresh=True,
                  prop_of=None, notes='', cls_targs=None, verify=True, terminates=True, unroll=None,
                  reads_only=False, this_shape=None, extra_env=None, body_assumes=(), max_paths=4000,
-                 returns_ref=None, timeout_ms=None, sig_not=None, binds=None, ghost=None, ghost_on=(), nowrap=False):
+                 returns_ref=None, timeout_ms=None, sig_not=None, binds=None, ghost=None, ghost_on=(), nowrap=False, post_facts=()):
         self.name = name
         self.tu = tu
         self.sig = sig
@@ -48,6 +48,7 @@ class Contract:
         self.ghost = dict(ghost or {})
         self.ghost_on = list(ghost_on)
         self.nowrap = nowrap
+        self.post_facts = list(post_facts)
         self.timeout_ms = timeout_ms
 
     def props_for(self, label):
@@ -516,6 +517,14 @@ def _names_of(expr):
 
 from . import specfun as _sf   # noqa: E402
 BASE_NS.update(_sf.NS)
+
+
+def _coprime(a, b):
+    from .prelude import COPRIME
+    return COPRIME(a, b)
+
+
+BASE_NS['coprime'] = _coprime
 
 
 def spec_eval_term(expr, env, extra=None):
